@@ -634,6 +634,9 @@ def shard(spec):
                         st.count("char_chunks_skipped_by_time_budget")
                         break
                     cfg = random_cfg(rng, lang)
+                    # the verbosity is not left to chance: round r gives chunk k the verbosity (r + k) mod 3, so over three rounds every
+                    # character of every table is spoken Terse, Medium and Verbose (entries that speak in one verbosity only are a common slip)
+                    cfg["verbosity"] = VERBOSITIES[(unit.get("round", 0) + off // unit["chunk"]) % 3]
                     cases = []
                     for ch, table in chars[off:off + unit["chunk"]]:
                         for elem in unit["elems"]:
@@ -708,11 +711,11 @@ def make_units(tier, seed):
         chars += [(c, "none") for c in outside]
         totals["none"] += len(outside)
         rng.shuffle(chars)
-        rounds = 2 if quick else 6
-        for _ in range(rounds):
+        rounds = 3 if quick else 6          # a multiple of 3: every character meets every verbosity (see shard)
+        for rnd in range(rounds):
             n = 600
             for off in range(0, len(chars), n):
-                units.append({"kind": "chars", "lang": lang, "chars": chars[off:off + n], "elems": ELEMS, "chunk": 100})
+                units.append({"kind": "chars", "lang": lang, "chars": chars[off:off + n], "elems": ELEMS, "chunk": 100, "round": rnd})
         letters = [c for c in "ABCDEFGHIJKLMNOPQRSTUVWXYZ"] + [c for c in "ΑΒΓΔΩÅÉ𝐀𝐴𝔸ℝ𝒜" if cc.usable(c)] + list("abz")
         units.append({"kind": "caps", "lang": lang, "letters": letters})
         pool = [c for c, _ in chars if not c.isspace() and c not in "<&"]
